@@ -2,6 +2,7 @@
 import json
 import os
 import vf
+from checks import common
 
 
 def run(tier, opts):
@@ -11,7 +12,7 @@ def run(tier, opts):
                "u64 0/1, squeeze, squeeze-many 0/2) and checks on the model that digest and challenge terms decode back to the absorbed "
                "prefix and counter (injective), are pairwise distinct and stable; every maximal history is replayed on the real Transcript "
                "under 2 random instantiations (digest, counter after every op, every challenge value; global equal-term<=>equal-value "
-               "partition). non-trivial = history contains at least one squeeze after an absorb")
+               "partition). Trace_IE: for each of the 7 layouts the interaction elements returned by traces_commit, by field name, are the squeezes in the Cairo verifier's element order. non-trivial = history contains at least one squeeze after an absorb")
     ck.assumptions = ["Poseidon (starknet-crypto) is collision resistant: modelled as a free constructor",
                       "harness term evaluator calls starknet_crypto::poseidon_hash / poseidon_hash_many"]
     tmp = vf.tmpdir("C08")
@@ -55,8 +56,13 @@ def run(tier, opts):
             elif seen_abs and (o[0] == "squeeze" or (o[0] == "squeezes" and o[1] > 0)):
                 nt = True
         ck.case(json.dumps(ops), nt)
-    ck.traces = 0
     ck.extra["behaviours_replayed_on_impl"] = summ[0]["cases"]
+    # interaction elements of the seven layouts: named element = squeeze at its position in the Cairo verifier's list
+    if not opts.get("replay"):
+        iet = os.path.join(tmp, "ie.ndjson")
+        vf.vh(binp, ["ie-order", iet, 2])
+        common.validate_trace(ck, "Trace_IE", iet, "interaction elements", "trace:ie",
+                              keyfn=lambda case, bad: f"trace:ie:{case[0].get('layout')}:{bad.get('ev')}")
     for c in cases[:1] + cases[len(cases) // 2:len(cases) // 2 + 1]:
         ck.sample({"ops": c["ops"], "counters": c["counters"], "n_challenges": len(c["outs"])})
     ck.exhaustive = True
